@@ -287,7 +287,7 @@ def generate():
                 "(* F[i,j] += d a_i/d x_k * V[k,j]; mu[i] += F[i,j] a_j; sigma2[i] += F[i,j]^2 a_j *)\n"
                 "Definition tF_loop_ok := %s.\nDefinition tmean_loop_ok := %s.\nDefinition tvar_loop_ok := %s.\n"
                 % (coq_bool(jc), coq_bool(g), coq_bool(dj), row, coq_bool(gj), coq_bool(f), coq_bool(mu), coq_bool(sg)))
-    except Unsupported as e:
+    except (Unsupported, ValueError, TypeError, IndexError, KeyError, AttributeError, AssertionError, RecursionError) as e:   # any surprise in the source = fail closed
         return (failed("DerivsGen", str(e)) +
                 "Definition jac_is_sympy_jacobian_of_states := false.\nDefinition grad_layout_ok := false.\n"
                 "Definition diffjac_layout_ok := false.\nDefinition gj_row (k i j nS nP : nat) : nat := 0.\n"
